@@ -576,6 +576,13 @@ func (ctx Ctx) methodExpr(call *ast.CallExpr) coq.Expr {
 			}
 			return ctx.newCoqCall("StringFromBytes", args)
 		}
+		if b, ok := ctx.info.Types[call.Fun].Type.(*types.Basic); ok && b.Info()&types.IsNumeric != 0 {
+			// uint64, uint32 and uint8 are converted by integerConversion;
+			// the other predeclared numeric types are not supported, and
+			// converting to one of them must not be the identity
+			ctx.unsupported(call, "conversion to %v", b)
+			return coq.CallExpr{}
+		}
 		// a different type conversion, which is a noop in GooseLang (which is
 		// untyped)
 		// TODO: handle integer conversions here, checking if call.Fun is an integer
